@@ -258,8 +258,14 @@ func VerifFullRace2Ext() {
 // stalls, times out and is reset. It is refused (ErrAlreadyReserved) or, if it arrives after the
 // reset released the reservation, served by the fresh environment; it never disturbs the
 // first caller's outcome, and a following sequential invocation is served normally.
-func VerifFullTwoCallersTimeout() {
-	f := newVerifFull(0, nil, [][]int{{rapid.VbStall}, {rapid.VbRespond, rapid.VbRespond}, {rapid.VbRespond}}, 3000)
+func VerifFullTwoCallersTimeout() { verifTwoCallersReset(rapid.VbStall) }
+
+// the same when the first invocation FAILS (its runtime exits) and the environment is reset for
+// that reason: a caller arriving while that reset is in progress is refused, never admitted
+func VerifFullTwoCallersFailure() { verifTwoCallersReset(rapid.VbExit) }
+
+func verifTwoCallersReset(first int) {
+	f := newVerifFull(0, nil, [][]int{{first}, {rapid.VbRespond, rapid.VbRespond}, {rapid.VbRespond}}, 3000)
 	w := f.w
 	// at most one invocation in flight: while the sandbox is being reset, the reservation (if any)
 	// is still the one that was in flight when the reset began -- nobody new is admitted
@@ -309,6 +315,9 @@ func VerifFullTwoCallersTimeout() {
 		case ErrInvokeTimeout:
 			timeouts++
 			verifAssert(o.wr.writes == 0, "the timed-out caller receives no runtime body")
+		case ErrInvokeDoneFailed:
+			timeouts++ // the first caller's failure outcome
+			verifAssert(first == rapid.VbExit, "a failure outcome only for the caller whose runtime exited")
 		case ErrAlreadyReserved:
 			refused++
 			verifReach("refused")
@@ -321,7 +330,7 @@ func VerifFullTwoCallersTimeout() {
 			verifAssert(false, "a second caller ends with refusal, timeout or success; got: "+o.err.Error())
 		}
 	}
-	verifAssert(timeouts == 1, "exactly the caller whose runtime stalled gets the timeout outcome")
+	verifAssert(timeouts == 1, "exactly the caller whose runtime stalled (or exited) gets the timeout (or failure) outcome")
 	// whoever was served got the response of a runtime started after the stalled generation was gone
 	if served == 1 {
 		gone := w.First("supervisor", "exited", "runtime-1")
